@@ -57,7 +57,8 @@ def count_digits(number: NumericValueType) -> tuple[int, int]:
     significand = significand.strip('0')
     exponent = int(_exponent)
     if significand in ('', '.'):
-        return 0, 0  # a zero written in scientific notation, e.g. str(Decimal('0.0000000')) == '0E-7'
+        # a zero written in scientific notation, e.g. str(Decimal('0.0000000')) == '0E-7'
+        return 0, 0
 
     num_digits = len(significand) - 1 if '.' in significand else len(significand)
     if exponent > 0:
